@@ -107,7 +107,7 @@ def run(ctx):
             ctx.violation('memory error (ASan) while evaluating %s: %s' % (bad, r.stderr[-600:]), {'class': {'fn': 'asan', 'line': bad.split()[0]}, 'line': bad})
             return
         raise vlib.MachineryError('driver answered %d of %d (rc=%s) %s' % (len(outs), len(lines), r.returncode, r.stderr[-800:]))
-    prej, irej = conformance(ctx, os.path.join(SPEC, 'Conf_PctCoding.tla'), os.path.join(SPEC, 'Conf_PctCoding.cfg'), outs, 'pct', chunk=8000)
+    prej, irej = conformance(ctx, os.path.join(SPEC, 'Conf_PctCoding.tla'), os.path.join(SPEC, 'Conf_PctCoding.cfg'), outs, 'pct', chunk=8000, timeout=3000)
     ctx.log('TLC evaluated %d cases: P-rejected %d, I-rejected %d' % (len(outs), len(prej), len(irej)))
     known = load_known('C31')
     iset = set(irej)
